@@ -69,6 +69,12 @@ def run(ctx):
         # the directory reads and seeks are tested for failure the right way round (shared with C05.R4)
         from rules import c05
         ctx.run_rule("R4-error-conversion", c05.r4_errors, F, {"do_readdir", "lseek"})
+        if any(k.startswith("api::pseudo_fs::persist::") for k in F.fns):
+            from rules import c19
+            fl_ = (vf.NOUPD[0], vf.NOCAST[0])
+            vf.NOUPD[0], vf.NOCAST[0] = False, False
+            ctx.run_rule("R4-pseudo-roundtrip", c19.r4_pseudo, F)      # pseudo directory offsets index the children in creation order, also after save/restore
+            vf.NOUPD[0], vf.NOCAST[0] = fl_
     finally:
         vf.NOUPD[0] = False
         vf.NOCAST[0] = False
